@@ -144,7 +144,8 @@ func (e *integEngine) taskWasRun(name string) bool {
 }
 
 // checkHookPattern: inside the goroutine of one task execution the commands must be
-//   [up...]  before-block  own commands...  after-block
+//
+//	[up...]  before-block  own commands...  after-block
 func (e *integEngine) checkHookPattern(cs *CtxSpec, rr runRec) {
 	c := e.c
 	owner := "ctx:" + cs.Name
@@ -189,7 +190,7 @@ func (e *integEngine) checkHookPattern(cs *CtxSpec, rr runRec) {
 		}
 		return true
 	}
-	rt := e.tasks[rr.Task]
+	rt := e.resultTask(rr.Task)
 	if first < 0 {
 		c.Violate("C14", "no-own-commands", "task %s in context %s ran none of its own commands: %s", rr.Task, cs.Name, trace)
 		return
